@@ -10,7 +10,7 @@
 //     capacity) is filled with 0xDE, so that any later read through a retained slice is visible;
 //   - every Malloc and every Free call with cap > 0 is recorded as an event; a Free whose pointer is not
 //     the base of a recorded allocation is recorded with ID 0 (a foreign / caller-owned buffer).
-// Extra exported API, used only by the harness: VerifEvents, VerifReset, VerifWhich.
+// Extra exported API, used only by the harness: VerifEvents, VerifReset, VerifWhich, VerifFreed.
 package mcache
 
 import (
@@ -138,6 +138,20 @@ func VerifReset() {
 	verifEvents = nil
 	verifAllocs = nil
 	verifMu.Unlock()
+}
+
+// VerifFreed reports whether p lies in an allocation that has been given back with Free.
+func VerifFreed(p unsafe.Pointer) bool {
+	verifMu.Lock()
+	defer verifMu.Unlock()
+	a := uintptr(p)
+	for k := range verifAllocs {
+		b := uintptr(unsafe.Pointer(verifAllocs[k].base))
+		if a >= b && a < b+uintptr(verifAllocs[k].cap) {
+			return verifAllocs[k].freed
+		}
+	}
+	return false
 }
 
 // VerifWhich maps a data pointer to (allocation number, offset); (0, 0) when it lies in no allocation.
